@@ -12,7 +12,13 @@ CONSTANTS
   AadSizes = {0, 1, 20}
   AllBitsSizes = {1}
   SigSearch = 1500
-  Families = {"jws", "jwe", "jwk"}
+  Families = {"jws", "jwe", "jwk", "values"}
+  ValSizes = {1, 2, 3, 4, 5, 6, 7, 8, 9, 10, 11, 12, 13, 14, 15, 16, 17, 31, 32, 33, 48, 1000}
+  ValKms = {"dir", "A128KW", "A256GCMKW", "RSA-OAEP"}
+  ValSigs = {"HS256", "ES384"}
+  ValForms = {"compact", "json"}
+  PayClasses = {"pattern"}
+  KeyVars = {"plain"}
   Deviation = "none"
 INVARIANT Emit
 CHECK_DEADLOCK FALSE
